@@ -5,6 +5,7 @@ CONSTANTS
   Vals <- V2
   CheckKeys <- C8
   MaxOps = 4
+  Ops <- OpsNoCopy
   KeepHist = TRUE
 VIEW view
 ACTION_CONSTRAINT EmitHist
